@@ -16,6 +16,8 @@
  *                                   cost0=<eval_cost the evaluation started with>
  *   lpc <path> <hex>          write generated LPC source to <mudlib>/<path>
  *   shape <term>              ignored (the abstract shape of the generated program, read by the model)
+ *   conf <variant>            ignored (the plugin starts one harness process per variant: master with / without
+ *                             error_handler () x ArgumentsInTrace / LocalVariablesInTrace)
  *   reconf <Key> <value>      re-read the config file through init_config() with that key replaced
  *   mset <fn> <int>           master()-><fn>(<int>): switches of the C04 verification master
  *   sz <constructor> <args...> size decision of one value constructor, evaluated by the real driver through the LPC
@@ -163,6 +165,8 @@ static int c04_cmd (char *line)
   char copy[8192];
   if (!strncmp (line, "shape ", 6))
     return 1;			/* the abstract shape of the program: for the model only */
+  if (!strncmp (line, "conf ", 5))
+    return 1;			/* which configuration / master variant the plugin runs this case under */
   if (!strncmp (line, "lpc ", 4))
     {
       /* lpc <path> <hex>: write generated LPC source below the mudlib directory (cwd) */
